@@ -752,22 +752,37 @@ func (e *Exec) switchStmt(st *State, s *ast.SwitchStmt) {
 		}
 		cond := Or(conds...)
 		taken := e.fork(rest, cond)
-		e.block(taken, cc.Body)
-		if hasFallthrough(cc) {
-			if ci+1 < len(clauses) && !taken.dead {
-				e.block(taken, clauses[ci+1].(*ast.CaseClause).Body)
-			}
-		}
+		e.runClauses(taken, clauses, ci)
 		ends = append(ends, taken)
 		rest = e.fork(rest, Not(cond))
 	}
 	if defaultClause != nil {
-		e.block(rest, defaultClause.Body)
+		for di, c := range clauses {
+			if c == ast.Stmt(defaultClause) {
+				e.runClauses(rest, clauses, di)
+			}
+		}
 	}
 	ends = append(ends, rest)
 	f.jumps = f.jumps[:len(f.jumps)-1]
 	ends = append(ends, jf.breaks...)
 	e.setState(st, e.merge(ends...))
+}
+
+// runClauses executes the body of clause i and, while a body ends in `fallthrough`, the bodies that follow.
+func (e *Exec) runClauses(st *State, clauses []ast.Stmt, i int) {
+	for ; i < len(clauses) && !st.dead; i++ {
+		cc := clauses[i].(*ast.CaseClause)
+		body := cc.Body
+		ft := hasFallthrough(cc)
+		if ft {
+			body = body[:len(body)-1]
+		}
+		e.block(st, body)
+		if !ft {
+			return
+		}
+	}
 }
 
 func hasFallthrough(cc *ast.CaseClause) bool {
@@ -1179,6 +1194,18 @@ func (e *Exec) assignedIn(nodes ...ast.Node) (map[types.Object]bool, bool) {
 				if t := info.TypeOf(y.X); t != nil {
 					if pt, ok := t.Underlying().(*types.Pointer); ok {
 						n, s := e.ptrHeap(pt.Elem())
+						if id, isId := ast.Unparen(y.X).(*ast.Ident); isId {
+							// p.f = v through a plain pointer variable: only the cell p refers to is written
+							if e.lastHeapNames == nil {
+								e.lastHeapNames = map[string]bool{}
+							}
+							if e.heapSorts == nil {
+								e.heapSorts = map[string]string{}
+							}
+							e.lastHeapNames[n+"\x00"+id.Name] = true
+							e.heapSorts[n] = s
+							return
+						}
 						wholeHeap(n, s)
 						return
 					}
